@@ -32,7 +32,7 @@ with block_beq (a b : block) : bool :=
 with blocks_beq (a b : blocks) : bool :=
   match a, b with
   | HNil, HNil => true
-  | HCons s r, HCons t q => block_beq s t && blocks_beq r q
+  | HCons a s r, HCons c t q => Bool.eqb a c && block_beq s t && blocks_beq r q
   | _, _ => false
   end.
 
